@@ -19,6 +19,51 @@ pub fn cmd_lookup(db: &Db, q: &str) -> String {
     }
 }
 
-pub fn dump_facts() {}
+#[derive(serde::Deserialize)]
+struct Doc {
+    #[serde(default)]
+    constants: Vec<anything::Constant>,
+}
+
+/// Decode every shipped data file with the real serde path and print the constants.
+pub fn dump_facts() {
+    use std::io::Read;
+    let dir = std::env::var("VERIF_REPO").unwrap_or_else(|_| "/repo".to_string());
+    let mut names: Vec<_> = std::fs::read_dir(format!("{}/db", dir))
+        .unwrap()
+        .filter_map(|e| e.ok())
+        .map(|e| e.path())
+        .filter(|p| p.to_string_lossy().ends_with(".bin.gz"))
+        .collect();
+    names.sort();
+    for path in names {
+        let fname = path.file_name().unwrap().to_string_lossy().to_string();
+        if fname == "sources.bin.gz" {
+            continue;
+        }
+        let bytes = std::fs::read(&path).unwrap();
+        let mut raw = Vec::new();
+        flate2::read::GzDecoder::new(&bytes[..]).read_to_end(&mut raw).unwrap();
+        let doc: Doc = match serde_cbor::from_slice(&raw) {
+            Ok(d) => d,
+            Err(e) => {
+                println!("FILEERR\t{}\t{}", fname, e);
+                continue;
+            }
+        };
+        for c in doc.constants {
+            let toks: Vec<String> = c.tokens.iter().map(|t| hex_encode(t.as_bytes())).collect();
+            println!(
+                "FACT\t{}\t{}\t{}\t{}\t{}\t{}",
+                if toks.is_empty() { "-".to_string() } else { toks.join(";") },
+                rat(&c.value),
+                unit_canon(&c.unit),
+                hex_encode(c.description.as_bytes()),
+                c.source.map(|s| s.to_string()).unwrap_or_else(|| "-".to_string()),
+                fname
+            );
+        }
+    }
+}
 pub fn dbopen(_args: &[String]) {}
 pub fn topk(_args: &[String]) {}
